@@ -10,7 +10,8 @@ import subprocess
 import sys
 
 VERIF = os.path.dirname(os.path.dirname(os.path.abspath(__file__)))
-REPO = '/repo'
+# the repository the seeded change is applied to: /repo, or the snapshot copy of a background run (VERIF_REPO, which ./check honours too)
+REPO = os.environ.get('VERIF_REPO', '/repo')
 
 
 def sh(cmd, cwd=None, env=None, timeout=3600):
